@@ -304,6 +304,13 @@ def job_dr(ctx, iq, ia):
         ('Madgwick[used]', 'Madgwick.updateIMU(q, w, acc=0, dt) on a used object', lambda q, w, dt: _arr(madg2.updateIMU(q, w, Z.copy(), dt=dt))),
         ('Mahony[used]', 'Mahony.updateIMU(q, w, acc=0, dt) on a used object', lambda q, w, dt: _arr(mah2.updateIMU(q, w, Z.copy(), dt=dt))),
         ('AQUA[used]', 'AQUA.updateIMU(q*, w, acc=0, dt)* on a used object', lambda q, w, dt: conj(_arr(aqua2.updateIMU(conj(q), w, Z.copy(), dt=dt)))),
+        # the MARG entry points with a null accelerometer sample (magnetometer null as well, or valid): the same dead-reckoning step over the caller's dt
+        ('Madgwick.MARG[acc=0,mag=0]', 'Madgwick.updateMARG(q, w, acc=0, mag=0, dt)', lambda q, w, dt: _arr(madg.updateMARG(q, w, Z.copy(), Z.copy(), dt=dt))),
+        ('Madgwick.MARG[acc=0]', 'Madgwick.updateMARG(q, w, acc=0, mag, dt)', lambda q, w, dt: _arr(madg.updateMARG(q, w, Z.copy(), np.array([20.0, -3.0, 40.0]), dt=dt))),
+        ('Mahony.MARG[acc=0,mag=0]', 'Mahony.updateMARG(q, w, acc=0, mag=0, dt)', lambda q, w, dt: _arr(mah.updateMARG(q, w, Z.copy(), Z.copy(), dt=dt))),
+        ('Mahony.MARG[acc=0]', 'Mahony.updateMARG(q, w, acc=0, mag, dt)', lambda q, w, dt: _arr(mah.updateMARG(q, w, Z.copy(), np.array([20.0, -3.0, 40.0]), dt=dt))),
+        ('AQUA.MARG[acc=0,mag=0]', 'AQUA.updateMARG(q*, w, acc=0, mag=0, dt)*', lambda q, w, dt: conj(_arr(aqua.updateMARG(conj(q), w, Z.copy(), Z.copy(), dt=dt)))),
+        ('AQUA.MARG[acc=0]', 'AQUA.updateMARG(q*, w, acc=0, mag, dt)*', lambda q, w, dt: conj(_arr(aqua.updateMARG(conj(q), w, Z.copy(), np.array([20.0, -3.0, 40.0]), dt=dt)))),
         ('EKF.f', 'normalised EKF.f(q, w, dt)', n_ekf),
         ('ROLEQ', 'ROLEQ.attitude_propagation(q, w, dt)', lambda q, w, dt: _arr(roleq.attitude_propagation(q, w, dt))),
     ]
